@@ -349,6 +349,7 @@ def run(rep):
     if vc is None:
         raise AnalysisError("plot/violinplot.py: _compute not found")
     pe = pq.PEval()
+    pe.inline = {k_: f_ for k_, f_ in vm.funcs.items() if k_.startswith("_") and "." not in k_}     # private module-level helpers are expanded at their call sites
     vpaths = pe.run(vc)
     vp = [p_ for p_ in vpaths if p_.how in ("end", "return")]
     if not vp:
